@@ -70,6 +70,11 @@ Theorem C13_config_tokens_are_appended : forall read pre f post toks,
   config_tokens read (pre ++ "--config" :: f :: post)%list = OK toks.
 Proof. exact config_is_appended. Qed.
 
+Theorem C13_two_config_files_one_after_the_other : forall read pre f1 f2 post t1 t2,
+  ~ In "--config" pre -> ~ In "--config" post -> read f1 = Some t1 -> read f2 = Some t2 ->
+  config_tokens read (pre ++ "--config" :: f1 :: "--config" :: f2 :: post)%list = OK (t1 ++ t2)%list.
+Proof. exact two_configs_back_to_back. Qed.
+
 Theorem C13_unknown_flag_rejected : forall bflags vflags a v rest acc, starts_dash a = true ->
   find_bool bflags a = None -> find_val vflags a = None -> a <> "--config" ->
   parse_loop bflags vflags (a :: v :: rest) acc = Error 12%nat.
